@@ -7,6 +7,7 @@ import (
 	"github.com/smarthome-go/homescript/v3/homescript/analyzer/ast"
 	"github.com/smarthome-go/homescript/v3/homescript/compiler"
 	"github.com/smarthome-go/homescript/v3/homescript/errors"
+	pAst "github.com/smarthome-go/homescript/v3/homescript/parser/ast"
 	"github.com/smarthome-go/homescript/v3/homescript/runtime"
 	vvalue "github.com/smarthome-go/homescript/v3/homescript/runtime/value"
 )
@@ -254,3 +255,89 @@ func VerifHarness_HostFreshValues() {
 	}
 	errors.VerifReached("history-done")
 }
+
+// ---- every declared result type comes back ----
+
+// VerifHarness_HostReturnTypes: a host call into a function of each result type (declared to the VM with the same type)
+// hands back a value of that type which carries the argument (null functions hand back nothing).
+func VerifHarness_HostReturnTypes() {
+	sp := errors.Span{}
+	intT := ast.NewIntType(sp)
+	kinds := []struct {
+		name, decl string
+		typ        ast.Type
+		kind       vvalue.ValueKind
+	}{
+		{"r_int", "fn r_int(a: int) -> int { a + 1 }", intT, vvalue.IntValueKind},
+		{"r_float", "fn r_float(a: int) -> float { a as float }", ast.NewFloatType(sp), vvalue.FloatValueKind},
+		{"r_bool", "fn r_bool(a: int) -> bool { a > 0 }", ast.NewBoolType(sp), vvalue.BoolValueKind},
+		{"r_str", "fn r_str(a: int) -> str { \"v\" }", ast.NewStringType(sp), vvalue.StringValueKind},
+		{"r_list", "fn r_list(a: int) -> [int] { [a] }", ast.NewListType(intT, sp), vvalue.ListValueKind},
+		{"r_obj", "fn r_obj(a: int) -> { k: int } { new { k: a } }", ast.NewObjectType([]ast.ObjectTypeField{ast.NewObjectTypeField(pAstIdent("k"), intT, sp)}, sp), vvalue.ObjectValueKind},
+		{"r_anyobj", "fn r_anyobj(a: int) -> { ? } { let o = new { ? }; o.set(\"k\", a); o }", ast.NewAnyObjectType(sp), vvalue.AnyObjectValueKind},
+		{"r_opt", "fn r_opt(a: int) -> ?int { ?a }", ast.NewOptionType(intT, sp), vvalue.OptionValueKind},
+		{"r_range", "fn r_range(a: int) -> range { 0..a }", ast.NewRangeType(sp), vvalue.RangeValueKind},
+		{"r_null", "fn r_null(a: int) { println(a); }", ast.NewNullType(sp), vvalue.NullValueKind},
+	}
+	ki := errors.VerifNdIntRange("result", 0, len(kinds)-1)
+	k := kinds[ki]
+	errors.VerifTag("result", k.name)
+	code := ""
+	for _, d := range kinds {
+		code += d.decl + "\n"
+	}
+	code += "fn main() { }\n"
+	an := verifAnalyze(code, nil, nil, true)
+	if an.hasError {
+		errors.VerifTag("diag", an.describe())
+		errors.VerifAssert("accepted", false)
+		return
+	}
+	comp := compiler.NewCompiler(an.modules, verifFile)
+	compiled, err := comp.Compile()
+	if err != nil {
+		errors.VerifInconclusive("compile error")
+	}
+	out := ""
+	var triggers []string
+	exec := verifVmExec{out: &out, triggers: &triggers}
+	ctx := newVerifCtx()
+	var cctx context.Context = ctx
+	var cancel context.CancelFunc = ctx.cancel
+	vm := runtime.NewVM(compiled, vvalue.Executor(exec), &cctx, &cancel, verifVmScope(nil), verifLimits)
+	a := errors.VerifNdInt64("a")
+	errors.VerifAssume(a >= -1000 && a <= 1000)
+	inv := runtime.FunctionInvocation{Function: k.name, Args: []vvalue.Value{*vvalue.NewValueInt(a)},
+		FunctionSignature: runtime.FunctionInvocationSignature{Params: []runtime.FunctionInvocationSignatureParam{verifIntParam("a")}, ReturnType: k.typ}}
+	var res runtime.FunctionInvocationResult
+	panicked, msg := errors.VerifPanics(func() { res = vm.SpawnSync(inv, nil, nil) })
+	if panicked {
+		errors.VerifTag("panic", errors.VerifNorm(msg))
+	}
+	errors.VerifAssert("host-call-never-crashes", !panicked)
+	if panicked {
+		return
+	}
+	errors.VerifReached("called")
+	errors.VerifAssert("completed-call-has-no-exception", res.Exception == nil)
+	if res.Exception != nil {
+		return
+	}
+	if k.kind == vvalue.NullValueKind {
+		return
+	}
+	errors.VerifAssert("declared-result-comes-back", res.ReturnValue != nil)
+	if res.ReturnValue == nil {
+		return
+	}
+	errors.VerifAssert("result-has-the-declared-kind", res.ReturnValue.Kind() == k.kind)
+	if k.name == "r_int" {
+		errors.VerifAssert("result-carries-the-argument", res.ReturnValue.(vvalue.ValueInt).Inner == a+1)
+	}
+	if k.name == "r_anyobj" && res.ReturnValue.Kind() == vvalue.AnyObjectValueKind {
+		f := res.ReturnValue.(vvalue.ValueAnyObject).FieldsInternal["k"]
+		errors.VerifAssert("result-carries-the-argument", f != nil && (*f).Kind() == vvalue.IntValueKind && (*f).(vvalue.ValueInt).Inner == a)
+	}
+}
+
+func pAstIdent(name string) pAst.SpannedIdent { return pAst.NewSpannedIdent(name, errors.Span{}) }
